@@ -135,7 +135,8 @@ def bfs_edges(
     for u, v in edges:
         adj[u].append(v)
 
-    result = bfs(source, target, lambda s: adj[s])
+    # every node is expanded at most once, so this budget never truncates the traversal
+    result = bfs(source, target, lambda s: adj[s], max_iter=max(1_000_000, n_nodes + len(edges) + 1))
     if target is None:
         # Convert visited set to sorted list for consistent output
         return Result(sorted(result.solution), 0, result.iterations, result.evaluations)
@@ -155,7 +156,8 @@ def dfs_edges(
     for u, v in edges:
         adj[u].append(v)
 
-    result = dfs(source, target, lambda s: adj[s])
+    # at most one pop per pushed edge, so this budget never truncates the traversal
+    result = dfs(source, target, lambda s: adj[s], max_iter=max(1_000_000, n_nodes + len(edges) + 1))
     if target is None:
         return Result(sorted(result.solution), 0, result.iterations, result.evaluations)
     return result
